@@ -318,3 +318,8 @@ Proof.
     unfold as_longlong. destruct ((- 2 ^ 63 <=? v) && (v <? 2 ^ 63)); cbn [exec_fcb f_res f_val f_err f_env]; reflexivity.
   - unfold fcb_zeroext_prog. cbn [exec_fcb f_res f_val f_err f_env]. reflexivity.
 Qed.
+
+(* every store path named in the property textually reaches convert_from_object (regenerated call-site
+   facts of C03/Gen.v; a call that disappears from the source turns its fact to false) *)
+Lemma paths_reach : forallb (fun b : bool => b) all_paths = true.
+Proof. reflexivity. Qed.
